@@ -208,7 +208,8 @@ BAD = [(("request_policy", "num_bundles"), 0), (("request_policy", "num_bundles"
        (("keys", "ksk_current", "algorithm"), 8), (("keys", "ksk_current", "valid_from"), "yesterday"), (("ksk_policy", "signers_name"), "not a name!"),
        (("ksk_policy", "publish_safety"), "P1X"), (("ksk_policy", "retire_safety"), "10 days"), (("ksk_policy", "max_signature_validity"), "1D"),
        (("request_policy", "min_bundle_interval"), "P1X"), (("request_policy", "max_cycle_inception_length"), "eighty"), (("response_policy", "num_bundles"), 0),
-       (("schemas", "normal", 1, "sign"), "bad name!")]
+       (("schemas", "normal", 1, "sign"), "bad name!"), (("schemas", "normal", 1, "sign"), {"ksk_current": True}), (("schemas", "normal", 2, "publish"), {"ksk_current": None, "ksk_next": None}),
+       (("schemas", "normal", 3, "revoke"), {"ksk_current": "yes"}), (("schemas", "normal", 1, "publish"), 5), (("schemas", "normal", 1, "sign"), [["ksk_current"]]), (("schemas", "normal", 1, "sign"), [5])]
 # durations: whatever contains a character that is neither a digit nor a designator, or does not start with P, is not a duration
 KP = ["publish_safety", "retire_safety", "max_signature_validity", "min_signature_validity", "max_validity_overlap", "min_validity_overlap"]
 for i_, text in enumerate(["P1.5D", "P1,5D", "P-1D", "P+1D", "P 1D", "P1D ", " P1D", "PxD", "Px1D", "P1DX", "P1Y", "P1D2X3H", "PT1.5H", "P1D;", "P1e3D", "P0x10D", "p1d", "P1d", "1D", "D1",
